@@ -562,3 +562,27 @@ CASES += [
 CASES += [
  dict(id='parsetree-table-loop-labels-swapped', kind='fire', file=PIO, patch='bn10-07.diff', old='[("If", c), ("Then", t), ("Else", e)]', new='[("If", c), ("Then", e), ("Else", t)]', expect={'C14': 'labels of Ite'}, control=False),
 ]
+
+_CTR_OLD = '''                if var.id >= var_id_counter {
+                    var_id_counter = var.id + 1;
+                }
+'''
+CASES += [
+ dict(id='counter-max-form', kind='silent', file=P, old=_CTR_OLD, new='                var_id_counter = var_id_counter.max(var.id + 1);\n', checks=['C11', 'C02', 'C13']),
+ dict(id='counter-cmp-max-form', kind='silent', file=P, old=_CTR_OLD, new='                var_id_counter = std::cmp::max(var_id_counter, var.id + 1);\n', checks=['C11']),
+ dict(id='counter-flipped-test', kind='silent', file=P, old=_CTR_OLD, new='                if var_id_counter <= var.id {\n                    var_id_counter = var.id + 1;\n                }\n', checks=['C11']),
+ dict(id='counter-renamed', kind='silent', file=P, subs=[(r'\bvar_id_counter\b', 'next_id'), (r'\bvariable_indexes\b', 'ids_by_name')], checks=['C11', 'C03']),
+ dict(id='counter-fresh-let-form', kind='silent', file=P, old='''                            var_id = var_id_counter;
+                            var_id_counter += 1;
+''', new='''                            let fresh = var_id_counter;
+                            var_id_counter = fresh + 1;
+                            var_id = fresh;
+''', checks=['C11']),
+ dict(id='counter-max-without-plus-one', kind='fire', file=P, old=_CTR_OLD, new='                var_id_counter = var_id_counter.max(var.id);\n', expect={'C11': 'X5', 'C02': 'X5'}),
+ dict(id='counter-strict-test', kind='fire', file=P, old=_CTR_OLD, new='                if var.id > var_id_counter {\n                    var_id_counter = var.id + 1;\n                }\n', expect={'C11': 'X5'}),
+ dict(id='counter-fresh-after-increment', kind='fire', file=P, old='''                            var_id = var_id_counter;
+                            var_id_counter += 1;
+''', new='''                            var_id_counter += 1;
+                            var_id = var_id_counter - 2;
+''', expect={'C11': 'X5'}),
+]
